@@ -411,10 +411,15 @@ class ModuleFinder:
         parent_path = path if path.is_dir() else path.parent
         # Always resolve parent path to compare for relativeness against resolved search paths.
         parent_path = parent_path.resolve()
+        # Search paths can be nested (a project root and its `src` folder for example):
+        # the closest one is the one the path is a top-level module of.
+        rel_paths = []
         for search_path in self.search_paths:
-            with suppress(ValueError, IndexError):
-                rel_path = parent_path.relative_to(search_path.resolve())
-                return rel_path.parts[0]
+            with suppress(ValueError):
+                rel_paths.append(parent_path.relative_to(search_path.resolve()))
+        rel_paths = [rel_path for rel_path in rel_paths if rel_path.parts]
+        if rel_paths:
+            return min(rel_paths, key=lambda rel_path: len(rel_path.parts)).parts[0]
         # If not, get the highest directory with an `__init__` module,
         # add its parent to search paths and return it.
         while parent_path.parent != parent_path and (parent_path.parent / "__init__.py").exists():
